@@ -22,8 +22,8 @@ import tracecheck
 
 KFS = ["KF_ContractUtxoUnbound", "KF_FailedStatusAccepted", "KF_NestedUseUncounted"]
 PROPOSED = os.path.join(vp.VERIF, "findings", "C09.known")
-MUST_REJECT = ["read_ver", "write_drop", "write_add", "write_val", "limit_below", "fee_below", "amt_req", "amt_out",
-               "ev_alter", "ev_drop", "ctr_alter", "redirect", "cin_omit", "cin_extra"]
+MUST_REJECT = ["read_ver", "write_drop", "write_add", "write_val", "write_dup", "write_app", "limit_below", "fee_below", "amt_req",
+               "amt_out", "ev_alter", "ev_drop", "ctr_alter", "redirect", "cout_drop", "cin_omit", "cin_extra"]
 
 
 def known():
@@ -169,11 +169,15 @@ def check(run):
     full = {"MaxSteps": 5}
     short = {"MaxSteps": 3, "NU": 1}
     rich = {"MaxSteps": 4, "NU": 4, "XferAmts": "{1, 2, 3}", "UseAmts": "{1, 2, 3}"}
+    # programs that write several keys next to events and transfers (whose records share the write set with the contract's own
+    # writes), and the tamperings of the write / read LIST: a record repeated in place of another one, appended, swapped
+    lists = {"MaxSteps": 5, "StepOps": '{"get", "put", "del", "xfer", "emit"}',
+             "TamperKinds": '{"none", "write_dup", "write_swap", "write_app", "read_dup", "write_drop", "write_val", "ev_drop", "ctr_alter", "cout_drop"}'}
     if quick:
-        plans = [(2400, full), (600, short), (600, rich)]
+        plans = [(2400, full), (600, short), (600, rich), (900, lists)]
         mcs = [("MC_Contract.cfg", 600), ("MC_Contract_arg.cfg", 300)]
     else:
-        plans = [(16000, full), (6000, short), (8000, rich)]
+        plans = [(16000, full), (6000, short), (8000, rich), (6000, lists)]
         mcs = [("MC_Contract_thorough.cfg", 1100), ("MC_Contract_arg_thorough.cfg", 900), ("MC_Contract_arg.cfg", 300)]
     if os.environ.get("VERIF_C09_SKIP_MC"):      # self-test aid only (mutant loops): the design check does not read /repo
         run.assumptions.append("MODEL CHECK SKIPPED (VERIF_C09_SKIP_MC)")
@@ -238,13 +242,19 @@ def check(run):
         "interleaved_writes": (tot.get("interleaves", 0), 50),
         "rejected_at_verify": (tot.get("reject_at_verify", 0), 100),
         "rejected_at_dotx": (tot.get("reject_at_dotx", 0), 5),
+        # every projection reads the keys a second time on a node that has only the stored data (no warm version cache)
+        "cache_free_reads": (tot.get("cold_reads", 0), 10000 if quick else 100000),
+        # committed write sets in which an event / contract utxo record precedes a write of the contract (offsets shifted)
+        "commits_with_write_after_transient": (tot.get("admit_write_after_transient", 0), 40),
+        "control_write_swap": (tot.get("tk_write_swap_admit", 0) + tot.get("tk_write_swap_reject", 0), 5),
+        "control_read_dup_same_version": (tot.get("tk_read_dup_admit", 0), 5),
     }
     for tk in MUST_REJECT:
         n = tot.get("tk_%s_reject" % tk, 0)
-        if tk in ("redirect", "cin_omit") and "KF_ContractUtxoUnbound" in kf:
+        if tk in ("redirect", "cin_omit", "cout_drop") and "KF_ContractUtxoUnbound" in kf:
             n += tot.get("tk_%s_admit" % tk, 0)      # the known deviation admits them; the case was exercised all the same
         req["tampering_%s" % tk] = (n, 5)
-    for tk in ("arg", "read_drop", "req_drop"):
+    for tk in ("arg", "read_drop", "req_drop", "read_dup"):
         req["tampering_%s" % tk] = (tot.get("tk_%s_reject" % tk, 0), 5)
     for tk in ("read_add", "fee_above", "limit_above"):
         req["control_%s_admitted" % tk] = (tot.get("tk_%s_admit" % tk, 0), 5)
